@@ -423,7 +423,9 @@ pub fn walk_opts(objects: &[u8], no_data: bool, count_only_events: bool) -> Resu
                             for i in 0..count {
                                 let t = c.u8()?;
                                 let l = c.u8()?;
-                                let d = c.take(l as usize)?;
+                                // data type 255 is the extended attribute list: its length octet
+                                // counts from 256
+                                let d = c.take(if t == 255 { l as usize + 256 } else { l as usize })?;
                                 let mut data = vec![t, l];
                                 data.extend_from_slice(d);
                                 objs.push(Obj { index: Some(start + i as u32), data });
